@@ -171,8 +171,9 @@ func instrumentFile(src, dst string) error {
 // instrumentWindows copies a Go source file of /repo's working tree and puts a
 // `verifWindow("<func>:<line>", <ctx>)` call in front of every statement (at
 // any nesting depth, closures excluded) of every method whose receiver is
-// *killedHandler (ctx = recv.ctx) or *Context (ctx = recv) and whose name is
-// in funcs (empty = all such methods). Insertions stay on the statement's own
+// *killedHandler (ctx = recv.ctx), *Context (ctx = recv) or *supervisionContext
+// (ctx = its *Context parameter) and whose name is in funcs (empty = all such
+// methods). Statements inside a critical section get no point. Insertions stay on the statement's own
 // line, so line numbers are those of the working tree.
 func instrumentWindows(src, dst string, funcs map[string]bool) error {
 	b, err := os.ReadFile(src)
@@ -296,6 +297,19 @@ func instrumentWindows(src, dst string, funcs map[string]bool) error {
 			ctxExpr = recv + ".ctx"
 		case "Context":
 			ctxExpr = recv
+		case "supervisionContext":
+			// the acting actor is the *Context parameter (applyDecision, broadcastAllTargets)
+			ctxExpr = ""
+			for _, prm := range fd.Type.Params.List {
+				if st, ok := prm.Type.(*ast.StarExpr); ok {
+					if pid, ok := st.X.(*ast.Ident); ok && pid.Name == "Context" && len(prm.Names) == 1 {
+						ctxExpr = prm.Names[0].Name
+					}
+				}
+			}
+			if ctxExpr == "" {
+				continue
+			}
 		default:
 			continue
 		}
